@@ -571,7 +571,11 @@ func (w *world) quiesce() error {
 		if runtime.NumGoroutine() <= w.baseG {
 			ok++
 			if ok >= 3 {
-				return nil
+				// confirm with a consistent (stop-the-world) count: NumGoroutine can be transiently too low
+				if fakes.GoroutineCount() <= w.baseG {
+					return nil
+				}
+				ok = 0
 			}
 		} else {
 			ok = 0
@@ -695,7 +699,7 @@ func runWorld(c *Case) (*world, error) {
 		return nil, fmt.Errorf("subscriber: %w", err)
 	}
 
-	w.baseG = runtime.NumGoroutine()
+	w.baseG = fakes.GoroutineCount()
 	_, err = controller.New(ctx,
 		controller.WithLogLevel(zerolog.Disabled),
 		controller.WithMonitor(nullmetrics.New()),
